@@ -32,7 +32,7 @@ var c14Exceptions = []errException{
 }
 
 func snapshotFns(n string) bool {
-	return strings.Contains(n, ").Snapshot") || strings.HasPrefix(n, "(*column.Collection).writeState") ||
+	return strings.Contains(n, ").Snapshot") || strings.HasPrefix(n, "(*column.Collection).writeState") || n == "(*column.Collection).chunks" ||
 		strings.HasPrefix(n, "(*commit.Buffer).PutBitmap") || strings.HasPrefix(n, "(commit.Chunk).Range") ||
 		(strings.HasPrefix(n, "column.make") && strings.HasSuffix(n, "$1"))
 }
@@ -154,7 +154,7 @@ func init() {
 			ruleRegister(r)
 			ruleBackfill(r)
 			ruleRegistryLists(r)
-			ruleUnits(r, "C03.units", unitsText, 2, anyOf(applyUnitFns("index"), fnsel("(*column.Collection).CreateIndex")))
+			ruleUnits(r, "C03.units", unitsText, 2, anyOf(applyUnitFns("index"), fnsel("(*column.Collection).CreateIndex", "(*column.Collection).chunks")))
 			ruleUnits(r, "C07.abs", "every Snapshot implementation, the state writer and PutBitmap/Chunk.Range hand absolute offsets to the destination buffer and index per-block storage with relative ones", 6, snapshotFns)
 			ruleReplayOrder(r)
 			ruleCommitOrder(r, true, false)
